@@ -270,6 +270,8 @@ struct MFind {
     arch: usize,
     gone: Gone,
     mask_all: bool,
+    /// the mask as passed, when the search is judged against the glob model (None: '*'-class masks and unjudged ones)
+    judged_mask: Option<String>,
     expected: Vec<(String, u64)>,
     returned: Vec<String>,
     exhausted: bool,
@@ -1264,6 +1266,20 @@ fn is_all(mask: &Option<String>) -> bool {
     matches!(mask.as_deref(), None | Some("*") | Some("*.*"))
 }
 
+/// A masked search (SFileFindFirstFile / SFileFindNextFile) is judged against the glob model when the mask is ASCII and
+/// neither of the '*' class (judged as "everything", above) nor empty (what an empty mask selects is not compared).
+fn judged_mask(mask: &Option<String>) -> Option<String> {
+    match mask.as_deref() {
+        Some(m) if !is_all(mask) && !m.is_empty() && m.is_ascii() => Some(m.to_string()),
+        _ => None,
+    }
+}
+
+/// The listed names the model says the mask selects (non-ASCII names are outside the model and left out on both sides).
+fn model_selection<'x>(mask: &str, names: impl Iterator<Item = &'x String>) -> BTreeSet<String> {
+    names.filter(|n| n.is_ascii() && glob_match(mask.as_bytes(), n.as_bytes())).cloned().collect()
+}
+
 impl<'a> St<'a> {
     fn mask_for(&self, k: u32) -> Option<String> {
         if k % 23 == 22 {
@@ -1274,6 +1290,19 @@ impl<'a> St<'a> {
             return Some(s);
         }
         MASKS[(k % MASKS.len() as u32) as usize].map(|s| s.to_string())
+    }
+
+    /// A mask derived from one of the names the Rust API lists for archive `ai` (see `mask_from_name`); None when the
+    /// archive lists no ASCII name.
+    fn derived_mask(&mut self, ai: usize, name_sel: u32, shape_sel: u32) -> Option<String> {
+        let list = self.rust_list(ai, true)?.ok()?;
+        let names: Vec<&String> = list.iter().map(|e| &e.0).filter(|n| n.is_ascii() && !n.is_empty()).collect();
+        if names.is_empty() {
+            return None;
+        }
+        let (mask, shape) = mask_from_name(names[name_sel as usize % names.len()], shape_sel);
+        self.c.count(&format!("mask_shape|{shape}"), 1);
+        Some(mask)
     }
 
     fn do_enum_files(&mut self, p: PlanOp) {
@@ -1357,10 +1386,28 @@ impl<'a> St<'a> {
         }
     }
 
+    /// A name produced by a judged masked search must be one the mask selects.
+    fn judge_masked_record(&mut self, func: &str, label: &str, mask: &str, name: &str) {
+        if !name.is_ascii() {
+            return;
+        }
+        self.c.count("masked_records_compared", 1);
+        if !glob_match(mask.as_bytes(), name.as_bytes()) {
+            self.viol("agreement-enum", func, label, &format!("masked-search-returns-a-name-the-mask-does-not-select|{}", mask_features(mask)),
+                      format!("search with mask {:?} produced {:?}, which the mask does not match", short(mask), short(name)));
+        }
+    }
+
     fn do_find_first(&mut self, p: PlanOp, force_all: bool) -> Option<usize> {
         let id = self.resolve(p.h, Want::Arch);
         let (valid, label, at) = self.classify(id, Want::Arch);
-        let mask = if force_all { Some("*".to_string()) } else { self.mask_for(p.x[0]) };
+        // an odd x[2] asks for a mask derived from the archive's own names (x[2] >> 1 picks the name, x[3] the shape)
+        let derived = if valid && p.x[2] & 1 == 1 { self.derived_mask(at.unwrap().1, p.x[2] >> 1, p.x[3]) } else { None };
+        let mask = match derived {
+            Some(m) => Some(m),
+            None if force_all => Some("*".to_string()),
+            None => self.mask_for(p.x[0]),
+        };
         let null_data = !force_all && p.x[1] % 19 == 0;
         let cm = mask.as_ref().map(|m| cs(m));
         let b = self.buf(std::mem::size_of::<SFILE_FIND_DATA>());
@@ -1383,15 +1430,27 @@ impl<'a> St<'a> {
         let Some(list) = self.rust_list(ai, true) else { return None };
         let expected = list.unwrap_or_default();
         let all = is_all(&mask);
+        let judged = judged_mask(&mask);
         if !ok {
             if all && !expected.is_empty() {
                 self.viol("agreement-enum", "SFileFindFirstFile", label, "nothing-found-but-rust-list-nonempty", format!("'*' search found nothing, Rust list has {} entries", expected.len()));
+            }
+            if let Some(m) = &judged {
+                self.c.count("masked_searches_judged", 1);
+                let want = model_selection(m, expected.iter().map(|e| &e.0));
+                if !want.is_empty() {
+                    self.viol("agreement-enum", "SFileFindFirstFile", label, &format!("masked-search-finds-nothing|listed-names-match-the-mask|{}", mask_features(m)),
+                              format!("search with mask {:?} found nothing, but the Rust list has {} name(s) the mask selects, e.g. {:?}", short(m), want.len(), short(want.iter().next().unwrap())));
+                }
             }
             return None;
         }
         self.live_ok += 1;
         let first = self.check_find_data("SFileFindFirstFile", label, &b, &expected, &[]);
-        self.finds.push(MFind { id: r, arch: ai, gone: Gone::No, mask_all: all, expected, returned: first.into_iter().collect(), exhausted: false });
+        if let (Some(m), Some(n)) = (&judged, &first) {
+            self.judge_masked_record("SFileFindFirstFile", label, m, n);
+        }
+        self.finds.push(MFind { id: r, arch: ai, gone: Gone::No, mask_all: all, judged_mask: judged, expected, returned: first.into_iter().collect(), exhausted: false });
         let i = self.finds.len() - 1;
         self.register("SFileFindFirstFile", r, Kind::Find, i);
         Some(r)
@@ -1423,6 +1482,9 @@ impl<'a> St<'a> {
             self.live_ok += 1;
             let (expected, returned) = (self.finds[fi].expected.clone(), self.finds[fi].returned.clone());
             if let Some(n) = self.check_find_data("SFileFindNextFile", label, &b, &expected, &returned) {
+                if let Some(m) = self.finds[fi].judged_mask.clone() {
+                    self.judge_masked_record("SFileFindNextFile", label, &m, &n);
+                }
                 if returned.contains(&n) && expected.iter().filter(|e| e.0 == n).count() < 2 {
                     self.viol("agreement-enum", "SFileFindNextFile", label, "name-returned-twice", format!("{:?} was returned twice by one search", short(&n)));
                 }
@@ -1445,6 +1507,18 @@ impl<'a> St<'a> {
                 if want != got || self.finds[fi].returned.len() != self.finds[fi].expected.len() {
                     let (r, e) = (self.finds[fi].returned.len(), self.finds[fi].expected.len());
                     self.viol("agreement-enum", "SFileFindNextFile", label, "set!=rust-list", format!("'*' search returned {r} names in total, Rust list has {e}"));
+                }
+            }
+            if let Some(m) = self.finds[fi].judged_mask.clone() {
+                // the search ran to its end: the names it produced must be the listed names the mask selects
+                self.c.count("masked_searches_judged", 1);
+                self.c.count("enumerations_compared", 1);
+                let want = model_selection(&m, self.finds[fi].expected.iter().map(|e| &e.0));
+                let got: BTreeSet<String> = self.finds[fi].returned.iter().filter(|n| n.is_ascii()).cloned().collect();
+                self.c.count("masked_names_compared", want.len().max(got.len()) as u64);
+                if let Some(miss) = want.difference(&got).next() {
+                    self.viol("agreement-enum", "SFileFindNextFile", label, &format!("masked-search-omits-a-listed-name-the-mask-selects|{}", mask_features(&m)),
+                              format!("search with mask {:?} ended after {} name(s) without {:?}, which is in the Rust list and matches the mask", short(&m), got.len(), short(miss)));
                 }
             }
             false
@@ -1920,7 +1994,7 @@ fn run_history(c: &mut Case, idx: u64, plan: &[PlanOp], exact: bool, miri: bool,
 
 // ------------------------------------------------------------------ scripted probes ----
 
-const NPROBE: u64 = 14;
+const NPROBE: u64 = 15;
 
 fn probe_plan(k: u64) -> (&'static str, Vec<PlanOp>) {
     let z = [0u32; 4];
@@ -1994,6 +2068,21 @@ fn probe_plan(k: u64) -> (&'static str, Vec<PlanOp>) {
         10 => ("enumerate-every-fixture", (0..7).flat_map(|i| vec![op(F::OpenArchive, HSel::Null, [i, 1, 0, 0]), op(F::EnumAll, HSel::Live(i), z), op(F::EnumFiles, HSel::Live(i), [1, 2, 0, 0]), op(F::EnumFiles, HSel::Live(i), [0, 1, 0, 0])]).collect()),
         11 => ("long-name-through-every-name-buffer", vec![open_a, op(F::OpenFileEx, HSel::Live(0), [8, 1, 0, 0]), op(F::GetFileName, HSel::Live(0), [1, 0, 0, 0]), op(F::ReadFile, HSel::Live(0), [6, 1, 0, 0]), op(F::HasFile, HSel::Live(0), [13, 1, 0, 0]), op(F::FindFirstFile, HSel::Live(0), [22, 1, 0, 0]), op(F::EnumAll, HSel::Live(0), z)]),
         13 => ("hasfile-after-compact-and-remove-on-mutable", vec![mk_mut, op(F::AddFileEx, HSel::Live(0), [0, 2, 1, 0x0001_0600]), op(F::CompactArchive, HSel::Live(0), z), op(F::HasFile, HSel::Live(0), [0, 1, 0, 0]), op(F::RemoveFile, HSel::Live(0), [0, 0, 1, 0x0001_0000]), op(F::HasFile, HSel::Live(0), [11, 1, 0, 0]), op(F::OpenFileEx, HSel::Live(0), [11, 2, 1, 0])]),
+        14 => {
+            // every fixture x every listed name x every mask shape x every position of the name (front positions 0..=24 and
+            // the last six), each as FindFirst + FindNext to exhaustion + FindClose, judged against the glob model
+            let mut v: Vec<PlanOp> = (0..7).map(|i| op(F::OpenArchive, HSel::Null, [i, 1, 0, 0])).collect();
+            for (i, fx) in fixture_table().iter().enumerate() {
+                for j in 0..fx.names.len() as u32 {
+                    for kind in 0..MASK_KINDS {
+                        for ps in 0..31 {
+                            v.push(op(F::EnumAll, HSel::Live(i as u32), [0, 0, 1 | (j << 1), mask_sel(kind, ps, j + ps)]));
+                        }
+                    }
+                }
+            }
+            ("masked-search-shapes", v)
+        }
         _ => ("special", vec![]),
     }
 }
@@ -2145,6 +2234,10 @@ fn main() {
         }
         prev(info)
     }));
+    if let Err(e) = glob_selftest() {
+        eprintln!("c19: {e}");
+        std::process::exit(2);
+    }
     let thorough = run.args.thorough();
     let exact = run.args.get("exact") == Some("1");
     let miri = run.args.get("miri") == Some("1");
@@ -2191,7 +2284,14 @@ fn main() {
                 if miri {
                     continue;
                 }
-                run.case(idx, &format!("probe|{name}"), json!({"mode": "probe", "probe": name, "plan": plan_text(&plan)}), |c| {
+                let mut text = plan_text(&plan);
+                if text.len() > 400 {
+                    // a systematic sweep: the description keeps its head, the rule is in the probe's name and source
+                    let n = text.len();
+                    text.truncate(40);
+                    text.push(format!("... {} more ops of the same sweep", n - 40));
+                }
+                run.case(idx, &format!("probe|{name}"), json!({"mode": "probe", "probe": name, "plan": text}), |c| {
                     poisoned = run_history(c, idx, &plan, exact, false, &fixtures, &scratch);
                 });
             }
